@@ -727,6 +727,64 @@ impl World {
         Ok(Some(done))
     }
 
+    /// `recv(fd, .., flags)` issued by number (raw libc call): MSG_PEEK leaves the data queued and is
+    /// not logged as a read; MSG_DONTWAIT makes this one call non-blocking. Ok(None) = would block for ever.
+    pub fn raw_recv(&mut self, fd: Fd, max: usize, peek: bool, dontwait: bool) -> Result<Option<Vec<u8>>, i32> {
+        if !peek {
+            let conn = self.stream_of(fd)?;
+            let nb = self.conns[conn].server.nonblocking;
+            self.conns[conn].server.nonblocking = nb || dontwait;
+            let r = self.srv_read(fd, max);
+            self.conns[conn].server.nonblocking = nb;
+            return r;
+        }
+        self.n_syscalls += 1;
+        let conn = self.stream_of(fd)?;
+        let nb = self.conns[conn].server.nonblocking || dontwait;
+        let (me, _peer) = self.ends(conn, true);
+        if !me.open {
+            return Err(libc::EBADF);
+        }
+        if !me.rx.is_empty() {
+            let n = max.min(me.rx.len());
+            return Ok(Some(me.rx.iter().take(n).cloned().collect()));
+        }
+        if let Some(e) = me.err.take() {
+            return Err(e);
+        }
+        if me.shutdown & RCV_SHUTDOWN != 0 || max == 0 {
+            return Ok(Some(Vec::new()));
+        }
+        if nb {
+            Err(libc::EAGAIN)
+        } else {
+            Ok(None)
+        }
+    }
+
+    /// `send(fd, .., flags)` issued by number
+    pub fn raw_send(&mut self, fd: Fd, buf: &[u8], dontwait: bool) -> Result<Option<usize>, i32> {
+        let conn = self.stream_of(fd)?;
+        let nb = self.conns[conn].server.nonblocking;
+        self.conns[conn].server.nonblocking = nb || dontwait;
+        let r = self.srv_write(fd, buf);
+        self.conns[conn].server.nonblocking = nb;
+        r
+    }
+
+    /// poll(2) mask of a descriptor of the simulated process (same bit values as epoll's)
+    pub fn raw_poll_mask(&self, fd: Fd) -> Option<u32> {
+        self.obj(fd)?;
+        Some(self.poll_fd(fd))
+    }
+
+    /// SO_ERROR: the pending error of a stream, taken
+    pub fn raw_take_error(&mut self, fd: Fd) -> Result<i32, i32> {
+        let conn = self.stream_of(fd)?;
+        let (me, _peer) = self.ends(conn, true);
+        Ok(me.err.take().unwrap_or(0))
+    }
+
     pub fn srv_shutdown(&mut self, fd: Fd, how: How) -> Result<(), i32> {
         self.n_syscalls += 1;
         let conn = self.stream_of(fd)?;
